@@ -38,6 +38,13 @@ pub fn lookup_case(r: &mut Rng, n_real: usize, n_phantom: usize, kind: u8) -> St
 
 /// `node_id_target`: a find_node lookup for the id of one of the nodes
 pub fn lookup_case_x(r: &mut Rng, n_real: usize, n_phantom: usize, kind: u8, node_id_target: bool) -> String {
+    lookup_case_w(r, n_real, n_phantom, kind, node_id_target, false)
+}
+
+/// `wide`: the answers of all real peers but the last list 70 far-away nodes each (distinct public addresses; they
+/// never answer); the last peer to answer lists one more real node that lies next to the target: it is asked, answers,
+/// and leads the report - however many candidates the lookup has collected by then
+pub fn lookup_case_w(r: &mut Rng, n_real: usize, n_phantom: usize, kind: u8, node_id_target: bool, wide: bool) -> String {
     let is_find = kind == 0;
     let mut s = Scn::new(r, n_real, false, Default::default());
     let value: Vec<u8> = format!("immutable value {}", r.below(1000)).into_bytes();
@@ -51,12 +58,25 @@ pub fn lookup_case_x(r: &mut Rng, n_real: usize, n_phantom: usize, kind: u8, nod
     } else {
         id20(r)
     };
+    if wide {
+        // the node next to the target: a real peer the looking node has never heard of
+        s.peers.push(Peer::new(id_at_distance(&target, 90, r)));
+    }
+    let n_known = n_real;
+    let n_real = s.peers.len();
     // which real peers hold the value / peers
     let holds: Vec<bool> = (0..n_real).map(|_| kind >= 2 && r.chance(1, 3)).collect();
     // universe: real peers first, then phantoms around the target
     let mut u: Vec<UNode> = s.peers.iter().map(unode_of_peer).collect();
-    let ph = gen_universe(r, n_phantom, &target, 4, &[160, 159, 158, 150, 100]);
-    u.extend(ph);
+    if wide {
+        for i in 0..n_phantom {
+            let ip = 0x2f00_0000u32 + ((i as u32) << 8) + 5;
+            u.push(UNode { id: id_at_distance(&target, *r.pick(&[160usize, 159]), r), ip, port: 5000 });
+        }
+    } else {
+        let ph = gen_universe(r, n_phantom, &target, 4, &[160, 159, 158, 150, 100]);
+        u.extend(ph);
+    }
     // a few more real-ish ids close to the target on phantom private addresses
     for _ in 0..3 {
         u.push(UNode { id: id_at_distance(&target, *r.pick(&[150usize, 140, 120]), r), ip: *r.pick(EXEMPT_IPS), port: 4000 + r.below(50) as u16 });
@@ -64,7 +84,16 @@ pub fn lookup_case_x(r: &mut Rng, n_real: usize, n_phantom: usize, kind: u8, nod
     let _ = secure_id_for;
     // knows relation: what each real peer lists when asked
     let knows: Vec<Vec<usize>> = (0..n_real)
-        .map(|_| {
+        .map(|p| {
+            if wide {
+                return if p + 1 < n_known {
+                    (0..n_phantom).filter(|i| i % (n_known - 1) == p).map(|i| n_real + i).collect()
+                } else if p + 1 == n_known {
+                    vec![n_real - 1]
+                } else {
+                    vec![]
+                };
+            }
             let k = r.range(0, 8) as usize;
             let mut v: Vec<usize> = (0..k).map(|_| r.below(u.len() as u64) as usize).collect();
             v.dedup();
@@ -97,7 +126,7 @@ pub fn lookup_case_x(r: &mut Rng, n_real: usize, n_phantom: usize, kind: u8, nod
         }
     };
     let mut idle_rounds = 0;
-    for _ in 0..400 {
+    for _ in 0..(if wide { 1200 } else { 400 }) {
         // collect requests (those of this lookup are answered by the script, one per tick)
         for inc in poll(&s.peers) {
             if is_this(&inc.msg) {
@@ -110,6 +139,8 @@ pub fn lookup_case_x(r: &mut Rng, n_real: usize, n_phantom: usize, kind: u8, nod
         let resp_desc;
         if !pending.is_empty() {
             let k = r.below(pending.len() as u64) as usize;
+            // (wide: the peer that lists the node next to the target answers after the others)
+            let k = if wide { pending.iter().position(|(p, _, _)| *p + 1 != n_known).unwrap_or(k) } else { k };
             let (p, from, tid) = pending.remove(k);
             let listed: Vec<Node> = knows[p].iter().map(|i| u[*i].node()).collect();
             let responder_id = Id::from(s.peers[p].id);
@@ -200,6 +231,9 @@ pub fn generate(seed: u64, scale: usize) -> Cases {
             cases.push(&format!("real25_phantom10_{}", ["", "", "get_immutable_held", "get_peers_held"][kind as usize]), lookup_case(&mut r, 25, 10, kind));
         }
     }
+    // more than 255 candidates before the closest node is heard of
+    cases.push("wide_280_candidates_then_the_closest", lookup_case_w(&mut r, 6, 350, 0, false, true));
+    cases.push("wide_280_candidates_then_the_closest", lookup_case_w(&mut r, 5, 280, 1, false, true));
     let _ = Ipv4Addr::LOCALHOST;
     cases
 }
